@@ -624,6 +624,22 @@ Proof.
   destruct (feed_ref (bins s2) s1 H1 Hc Hp Hu) as (s' & F & I' & C' & _ & R). exists s'. unfold merge. auto.
 Qed.
 
+
+(* h1 + h2 has the bins of merge(h1, h2): the reference run on the right operand's bins *)
+Corollary hadd_ref (s1 s2 : st) :
+  Inv s1 -> cache_exact s1 -> Inv s2 -> bins s2 <> [] -> uniq_trace (cap s1) (bins s1) (bins s2) ->
+  exists s', hadd A s1 s2 = Some s' /\ Inv s' /\
+             ref_feed A (cap s1) (bins s1) (bins s2) = Some (bins s').
+Proof.
+  intros H1 Hc H2 Hne Hu.
+  destruct (merge_ref s1 s2 H1 Hc H2 Hu) as (sm & M & _ & _ & R).
+  destruct (hadd_any fadd fsub fmul fdiv fofZ ftrunc s1 s2 H1 H2 Hne) as (s' & ? & ? & ? & ? & Hh & I' & _).
+  exists s'. split; [exact Hh|]. split; [exact I'|].
+  unfold hadd in Hh. rewrite M in Hh. cbn [bind] in Hh.
+  destruct (omin A (hmin sm) (hmin s2)); [|discriminate]. destruct (omax A (hmax sm) (hmax s2)); [|discriminate].
+  cbn [bind] in Hh. inversion Hh; subst. cbn [bins]. exact R.
+Qed.
+
 End RefProofs.
 
 Lemma Qplus_comm_eq (a b : Q) : Qplus a b = Qplus b a.
